@@ -182,12 +182,21 @@ Definition sem (t : fdt) (c : call) : sresp :=
                        else if Nat.eqb o PB && beq path (b "thread-self") then SRet (RStat S_IFLNK 0 0 0)
                        else SRet (RErr ENOSYS)
            end
-  | Openat2 fd path _ _ _ =>
-      (* only the two lookups of as_unsafe_path on the procfs handle *)
+  | Openat2 fd path flags _ resolve =>
+      (* the kernel's own in-root resolution (what the openat2 backend asks for), and the two
+         lookups of as_unsafe_path on the procfs handle *)
       match tget t fd with
       | None => SRet (RErr (if Z.eqb fd AT_FDCWD then ENOSYS else EBADF))
       | Some o =>
-          if Nat.eqb o PB then
+          if Nat.ltb o PB then
+            (if Nat.eqb o ROOT && has resolve RESOLVE_IN_ROOT && has flags O_PATH then
+               match FSModel.kwalk s path (has flags O_NOFOLLOW) (has resolve RESOLVE_NO_SYMLINKS) with
+               | FSModel.WOk c => SNew c
+               | FSModel.WErr e => SRet (RErr e)
+               | FSModel.WBudget => SRet (RErr ELOOP)
+               end
+             else SRet (RErr ENOSYS))
+          else if Nat.eqb o PB then
             (if beq path (b "thread-self") then SNew P_THREAD else SRet (RErr ENOSYS))
           else if Nat.eqb o P_THREAD then
             match parse_fd path with
